@@ -351,6 +351,9 @@ def r_anywhere(ck: Checker) -> None:
         for k in tail_empty:
             te = (a[k] == 0) if k == f"len({tail_txt})" else (a[k] <= 1)
         unknown = [k for k in keys if k not in step and k not in tail_empty and k not in direct and k not in (k_any, k_root, k_loop)]
+        if pvar in unknown:
+            bad.append(f"the root is recognised by the truthiness of `{pvar}` (a node class may define __len__ / __bool__): `is None` required")
+            continue
         if unknown:
             raise Unsupported(f"_match_node_xpath decides on {unknown}", g.node)
         if te is None:
